@@ -267,6 +267,53 @@ def _contains(root: ast.AST, node: ast.AST) -> bool:
     return any(x is node for x in ast.walk(root))
 
 
+def r18_5(rep: Report) -> None:
+    """a reported error stays in the session's report: outside DashElement.reset_errors itself, errors
+    are cleared (`X.reset_errors()`, `X.errors = []`, `.errors.clear()`) only for an object whose
+    errors were put into the validation history earlier in the same function
+    (`self.history.append(ValidationHistory(.., errors=X.get_errors()))`)."""
+    from ..core import dfs_order
+    rid = 'R18.5'
+    pkg = 'dashlive/mpeg/dash/validator'
+    sites = 0
+    for rel in rep.repo.py_files(pkg):
+        for cls_, fn in rep.repo.expanded_functions(rel):
+            if fn.name in ('reset_errors', 'reset', '__init__'):
+                continue
+            order = dfs_order(fn)
+            archived: list[tuple[int, str]] = []
+            for n in ast.walk(fn):
+                if isinstance(n, ast.Call) and (call_name(n) or '').endswith('history.append'):
+                    for g in ast.walk(n):
+                        if isinstance(g, ast.Call) and isinstance(g.func, ast.Attribute) and g.func.attr == 'get_errors':
+                            archived.append((order[id(n)], norm(g.func.value)))
+            for n in ast.walk(fn):
+                recv = None
+                if isinstance(n, ast.Call) and isinstance(n.func, ast.Attribute) and n.func.attr == 'reset_errors':
+                    recv = norm(n.func.value)
+                elif isinstance(n, ast.Call) and isinstance(n.func, ast.Attribute) and n.func.attr == 'clear' \
+                        and norm(n.func.value).endswith('errors'):
+                    recv = norm(n.func.value)[:-len('.errors')] or 'self'
+                elif isinstance(n, ast.Assign) and isinstance(n.targets[0], ast.Attribute) \
+                        and n.targets[0].attr == 'errors' and isinstance(n.value, (ast.List, ast.Tuple)) \
+                        and not n.value.elts:
+                    recv = norm(n.targets[0].value)
+                if recv is None:
+                    continue
+                sites += 1
+                construct = f'{rel}::{(cls_.name + ".") if cls_ is not None else ""}{fn.name}'
+                if any(o < order[id(n)] and r == recv for o, r in archived):
+                    rep.ok(rid, construct, f'{recv}: errors archived before they are cleared')
+                else:
+                    rep.fail(rid, construct, f'{recv}: errors archived before they are cleared',
+                             f'`{short(n, 60)}` clears the errors of `{recv}`, which were not copied into the '
+                             f'validation history first (archived here: {sorted({r for _o, r in archived}) or "nothing"}): '
+                             'findings recorded on that object - e.g. a changed availabilityStartTime noted by '
+                             'validate() - vanish from the final report', n, file=rel)
+    if not sites:
+        raise AnalysisError('no error reset found in the validator (refresh() changed?)')
+
+
 def analyse(rep: Report) -> None:
     rep.explanation = (
         'Detection side of C18 as an inventory: for each corruption kind of the property the '
@@ -278,6 +325,8 @@ def analyse(rep: Report) -> None:
     rep.rule('R18.2', 'the detecting check is attached to the element that owns the fact', floor=6)
     rep.rule('R18.3', 'validator while-loops make progress', floor=1)
     rep.rule('R18.4', 'checks on optional numeric expectations are guarded by `is not None`', floor=3)
+    rep.rule('R18.5', 'errors are cleared only after they were archived in the validation history', floor=1)
     r18_1_2(rep)
     r18_3(rep)
     r18_4(rep)
+    r18_5(rep)
